@@ -1316,8 +1316,75 @@ def worker_init():
     rotation_lattice(15)
 
 
+# synthetic templates with exactly representable coordinates: planar and
+# axis-aligned (isosceles triangle, kite, rectangle), a right-angled corner
+# and one generic tetrahedron.  Under the 24 cube rotations the correlation
+# matrix takes its degenerate forms (zero diagonal, equal eigenvalues).
+EXACT_TEMPLATES = {
+    "isosceles": [(-1.0, 0.0, 0.0), (1.0, 0.0, 0.0), (0.0, 2.0, 0.0)],
+    "kite": [(-1.0, 0.0, 0.0), (1.0, 0.0, 0.0), (0.0, 2.0, 0.0),
+             (0.0, -0.5, 0.0)],
+    "rectangle": [(-2.0, -1.0, 0.0), (2.0, -1.0, 0.0), (2.0, 1.0, 0.0),
+                  (-2.0, 1.0, 0.0)],
+    "corner": [(0.0, 0.0, 0.0), (1.5, 0.0, 0.0), (0.0, 0.75, 0.0)],
+    "tetra": [(0.0, 0.0, 0.0), (1.5, 0.0, 0.0), (0.25, 1.25, 0.0),
+              (0.5, 0.5, 1.0)],
+}
+EXACT_PROBES = [(0.5, 0.25, 1.0), (0.0, 0.0, -1.5), (2.0, -1.0, 0.5)]
+EXACT_SHIFTS = [(0.0, 0.0, 0.0), (8.0, -16.0, 32.0), (-1024.0, 512.0, 256.0)]
+
+
+def run_exact(case):
+    import numpy as np
+
+    from pdb2pqr import quatfit
+
+    res = {"evals": 0, "violations": [], "events": {}, "nontrivial": []}
+    T0 = np.array(EXACT_TEMPLATES[case["template"]])
+    seen = set()
+    for ri, R in enumerate(build_cube_rotations()):
+        for shift in EXACT_SHIFTS:
+            S = (R @ T0.T).T + np.array(shift)
+            for probe in EXACT_PROBES:
+                want = R @ np.array(probe) + np.array(shift)
+                got = quatfit.find_coordinates(
+                    len(T0), [list(map(float, p)) for p in S],
+                    [list(map(float, p)) for p in T0], list(probe))
+                res["evals"] += 1
+                err = float(np.linalg.norm(np.array(got) - want))
+                if err > 1e-6:
+                    sig = (f"C15/exact/{case['template']}/error>1e-6/"
+                           f"rotation-class:{_rot_class(R)}")
+                    if sig not in seen:
+                        seen.add(sig)
+                        res["violations"].append({
+                            "sig": sig, "detail": {
+                                "rotation": R.tolist(), "shift": list(shift),
+                                "probe": list(probe), "error": err,
+                                "got": list(map(float, got)),
+                                "want": want.tolist()}})
+        res["nontrivial"].append(f"exact:{case['template']}:rot{ri}")
+    return res
+
+
+def build_cube_rotations():
+    from .. import build as _b
+
+    return _b.CUBE_ROTATIONS
+
+
+def _rot_class(R):
+    import numpy as np
+
+    tr = int(round(float(np.trace(R))))
+    return {3: "identity", 1: "quarter-turn", -1: "half-turn",
+            0: "third-turn"}.get(tr, str(tr))
+
+
 def run_case(case):
     mode = case["mode"]
+    if mode == "exact":
+        return run_exact(case)
     if mode == "fit":
         return run_fit(case)
     if mode == "fit2":
@@ -1333,7 +1400,7 @@ def run_case(case):
 
 def enumerate_cases(tier, seed):
     thorough = tier == "thorough"
-    cases = []
+    cases = [{"mode": "exact", "template": t} for t in EXACT_TEMPLATES]
     _aa, _na, _patches, canonical = T.load()
     # -- qchichange directly (cheapest, simplest first)
     for ax in AXES26:
